@@ -579,7 +579,16 @@ impl<'a> Ctx<'a> {
         };
         let mut any = false;
         for id in ids {
-            if let Some((h, s)) = self.real.remove(&id) {
+            if let Some((h, mut s)) = self.real.remove(&id) {
+                // every third close of a stream shuts its write side down first (half-close, then drop)
+                if i % 3 == 0 {
+                    if let RSock::Stream(st) = &mut s {
+                        use tokio::io::AsyncWrite;
+                        let r = self.d.with_cx(h, &self.accept_flag.waker, |cx| Pin::new(st).poll_shutdown(cx));
+                        self.rep.probes.inc("stream_shut_down_before_close");
+                        self.log.ev(format!("#{i} shutdown id{id} on h{h} -> {:?}", matches!(r, Poll::Ready(Ok(())))));
+                    }
+                }
                 self.d.on(h, || drop(s));
                 self.m.remove(h, id);
                 any = true;
